@@ -8,6 +8,9 @@
            (bit patterns of stats.InvCDF(d)(y) and d.InvCDF(y); of stats.Rand(d)(r) and d.Rand(r'))
      op 4  Rand on a piecewise distribution with a scripted source:
            7 4  nk { x l v }*  bl bh  nsrc { int63 }*  st consumed y draw  ist inv
+     op 5  supporting evidence: Kolmogorov-Smirnov distance D (computed by the harness against the
+           distribution's own float64 CDF) of n draws of stats.Rand with a seeded math/rand source:
+           7 5  nk { x l v }*  bl bh  n st D
    All of x l v bl bh y obs ... are float64 bit patterns; st: 0 = returned, 2 = panicked.
    knot (x, l, v): break point, left limit, value (see Model/InvCDF.v). *)
 From MM Require Import Base.Num Model.Choose Model.Binom Model.Hyperg Model.InvCDF.
@@ -44,6 +47,11 @@ Definition T_INF := 8192.     (* y = 0 / 1 answered by -Inf / +Inf *)
 Definition T_PANIC := 16384.  (* y = NaN *)
 Definition T_EXACTLEVEL := 32768.  (* y equals a level of the cdf at a knot *)
 Definition T_BORDER := 65536.
+Definition T_KS := 131072.
+
+(* Dvoretzky-Kiefer-Wolfowitz (Massart): P (D_n > e) <= 2 exp (-2 n e^2).  False-alarm bound 1e-9:
+   2 n D^2 <= ln (2e9) = 21.4164...  (the logarithm is a constant here, rounded up) *)
+Definition ks_bound : Q := 2142 # 100.
 
 (* ---------- classification of the exact answer (tags only) ---------- *)
 Fixpoint q_kind_from (pv : Q) (rest : pwf) (y : Q) : Z :=
@@ -248,6 +256,18 @@ Definition check_C07 (line : list Z) : list Z :=
                 | None => verdict V_OK (Z.lor tag t) (-1) []
                 | Some dg => match dg with [99] => verdict V_MALFORMED tag 4 dg | _ => verdict V_MISMATCH (Z.lor tag t) 4 dg end
                 end
+          end
+      | None => verdict V_MALFORMED 0 (-1) []
+      end
+  | 7 :: 5 :: rest =>
+      match (do pw <- plist p_knot; do bl <- pQ; do bh <- pQ; do n <- pZ; do st <- pZ; do d <- pX; pend (pw, n, st, d)) rest with
+      | Some ((pw, n, st, d), _) =>
+          if negb (valid_pw pw) || (n <? 1) then verdict V_MALFORMED 0 (-1) [] else
+          match d with
+          | XFin dq => if (st =? 0) && Qle_bool 0 dq && Qle_bool (dq * dq * inject_Z (2 * n)) ks_bound
+                       then verdict V_OK (Z.lor T_RAND T_KS) (-1) []
+                       else verdict V_MISMATCH (Z.lor T_RAND T_KS) 0 (st :: qdiag dq)
+          | _ => verdict V_MISMATCH (Z.lor T_RAND T_KS) 0 [st]
           end
       | None => verdict V_MALFORMED 0 (-1) []
       end
